@@ -411,6 +411,11 @@ Lemma cong_roe' A n p q : sim A n p q -> sim A n (PRestoreOnErr p) (PRestoreOnEr
 Proof. intros. eapply sim_le; [|apply cong_roe; eauto]. lia. Qed.
 Lemma cong_rep' A n p q : sim A n p q -> sim A n (PRepeat p) (PRepeat q).
 Proof. intros. eapply sim_le; [|apply cong_rep; eauto]. lia. Qed.
+(* the inlined body on the left against a closure on the right *)
+Lemma cong_call_right A n k p q : E2 k = Some q -> sim A n p q -> sim A n p (PCall k).
+Proof.
+  intros X2 H f s t Hf R HA Hne. destruct (H f s t Hf R HA Hne) as [f' Hr]. exists (S f'). cbn [exec]. rewrite X2. exact Hr.
+Qed.
 Lemma cong_call_left' A n k p q : E1 k = Some p -> sim A n p q -> sim A n (PCall k) q.
 Proof. intros. eapply sim_le; [|eapply cong_call_left; eauto]. lia. Qed.
 End Cong'.
